@@ -71,8 +71,23 @@ def corpus():
     return _CORPUS
 
 
+# model strings by corpus vendor: the file front end is given the hardware as a STRING (`--hw "Huawei CE6870"`), the device
+# front end gets the HardwareView of the same string; model-level strings decide Mako branches of the shipped rulebooks
+FILE_MODELS = {
+    "huawei": ["Huawei CE6870", "Huawei NE40E", "Huawei Quidway S5300", "Huawei"],
+    "huawei ce": ["Huawei CE6870", "Huawei CE8850"],
+    "cisco": ["Cisco Catalyst 2960", "Cisco Catalyst", "Cisco 2911"],
+    "nexus": ["Cisco Nexus 3172", "Cisco Nexus 9508", "Cisco Nexus"],
+    "arista": ["Arista DCS-7280", "Arista"],
+    "asr": ["Cisco ASR 9000", "Cisco ASR"],
+    "aruba": ["Aruba AP-335", "Aruba"],
+    "b4com": ["B4com B4T-CS2148P", "B4com"],
+}
+
+
 def shards(tier, seed):
-    out = [dict(kind="gen", seed=seed * 1000 + i, n=120 if tier == "quick" else 15000) for i in range(12)]
+    out = [dict(kind="files", seed=seed * 1000 + 900 + i, n=25 if tier == "quick" else 1500) for i in range(4)]
+    out += [dict(kind="gen", seed=seed * 1000 + i, n=120 if tier == "quick" else 15000) for i in range(12)]
     out += [dict(kind="sens", seed=seed * 1000 + 500 + i, n=150 if tier == "quick" else 15000) for i in range(8)]
     out.append(dict(kind="corpus"))
     n = 40 if tier == "quick" else 4000
@@ -113,6 +128,17 @@ def gen(desc):
             c["kind"] = "gen"
             c["sens"] = True
             yield c
+    elif desc["kind"] == "files":
+        rng = random.Random(desc["seed"])
+        cs = [c for c in corpus() if c[1] in FILE_MODELS]
+        for _ in range(desc["n"]):
+            a = rng.choice(cs)
+            b = rng.choice([c for c in cs if c[1] == a[1]]) if rng.random() < 0.4 else a
+            old, new = a[2], b[3]
+            if rng.random() < 0.3:
+                new = [x for x in new if rng.random() < 0.85]
+            yield dict(kind="files", name="files:%s|%s" % (a[0], b[0]), vendor=a[1], model=rng.choice(FILE_MODELS[a[1]]),
+                       old=old, new=new)
     elif desc["kind"] == "corpus":
         for name, vendor, old, new in corpus():
             yield dict(kind="corpus", name=name, vendor=vendor, old=old, new=new)
@@ -140,9 +166,62 @@ class _Dev:
         self.breed = "x"
 
 
+def files_modes(case):
+    """the file front end as the CLI drives it - two files on disk and the hardware as a string (`_read_old_new_hw`,
+    `file_patch_worker`) - against the device front end on the HardwareView of the same string"""
+    import os
+    import shutil
+    import tempfile
+    import types
+    from annet import api
+    from annet.annlib import tabparser
+    from annet.annlib.netdev.views.hardware import HardwareView
+    from annet.vendors import registry_connector
+    setup_worker()
+    hw_d = HardwareView(case["model"], "")
+    try:
+        fmt = registry_connector.get().match(hw_d).make_formatter(indent="  ")
+        texts = [fmt.join(rbgen.to_odict(case[k])) for k in ("old", "new")]
+    except Exception as e:  # noqa
+        return {"skip": type(e).__name__}
+    tmp = tempfile.mkdtemp(prefix="c16files")
+    res = {}
+    try:
+        paths = []
+        for nm, t in zip(("old.cfg", "new.cfg"), texts):
+            pth = os.path.join(tmp, nm)
+            with open(pth, "w") as f:
+                f.write(t)
+            paths.append(pth)
+        args = types.SimpleNamespace(hw=case["model"], add_comments=False, indent="  ", show_rules=False, no_color=True)
+        try:
+            _dest, _o, _n, hw_f = api._read_old_new_hw(paths[0], paths[1], args)
+            res["file_hw"] = [str(getattr(hw_f, "model", None)), hw_f.vendor, hw_f == hw_d]
+            res["file"] = {"text": "".join(t for _l, t, _b in api.file_patch_worker((paths[0], paths[1]), args))}
+        except AssertionError:
+            res["file"] = {"err": "AssertionError"}
+        except Exception as e:  # noqa
+            res["file"] = {"err": type(e).__name__}
+        try:
+            old = tabparser.parse_to_tree(texts[0], fmt.split)
+            new = tabparser.parse_to_tree(texts[1], fmt.split)
+            _diff, pt = api._diff_and_patch(_Dev(hw_d), old, new, None, None, False)
+            res["device"] = {"text": api._format_patch_blocks(pt, hw_d, "  ") if pt else ""}
+            res["device_hw"] = [str(hw_d.model), hw_d.vendor, True]
+        except AssertionError:
+            res["device"] = {"err": "AssertionError"}
+        except Exception as e:  # noqa
+            res["device"] = {"err": type(e).__name__}
+    finally:
+        shutil.rmtree(tmp, ignore_errors=True)
+    return res
+
+
 def both_modes(case):
     from annet import api
     setup_worker()
+    if case["kind"] == "files":
+        return files_modes(case)
     if case["kind"] == "gen":
         hw = rbgen.Hw(case["vendor"])
         hw.tag = str(hash(case["ptext"] + "|" + case["otext"]))
@@ -201,6 +280,21 @@ def cmd_paths(pt, pre=()):
 
 
 def oracle(case, r):
+    if case["kind"] == "files":
+        if "skip" in r:
+            return []
+        out = []
+        d, f = r.get("device", {}), r.get("file", {})
+        if "file_hw" in r and "device_hw" in r and (r["file_hw"][:2] != r["device_hw"][:2] or not r["file_hw"][2]):
+            out.append(dict(sig="file-front-end-works-on-another-hardware",
+                            what="--hw %r: the file front end computes for hardware %r, the device front end for %r" % (
+                                case["model"], r["file_hw"], r["device_hw"])))
+        if ("err" in d or "err" in f) and d != f:
+            out.append(dict(sig="modes-differ-error", what="device mode: %s, file mode: %s" % (d.get("err"), f.get("err"))))
+        elif "text" in d and "text" in f and d["text"].rstrip("\n") != f["text"].rstrip("\n"):
+            out.append(dict(sig="patch-differs:files", what="--hw %r: file mode prints %r, device mode %r" % (
+                case["model"], f["text"][:200], d["text"][:200])))
+        return out
     if "device" not in r:
         return [dict(sig="unexpected-exception", what="front end raised: %s" % (r,))]
     d, f = r["device"], r["file"]
@@ -218,12 +312,19 @@ def oracle(case, r):
 
 
 def nontrivial(case, r):
+    if case["kind"] == "files":
+        return "text" in r.get("device", {}) and r["device"]["text"].count("\n") >= 2
     return "device" in r and "patch" in r["device"] and len(cmd_paths(r["device"]["patch"])) >= 2
 
 
 def stats(case, r):
     lab = ["kind=" + ("cross" if case.get("name", "").startswith("cross:") else "sens" if case.get("sens") else case["kind"]),
            "vendor=" + case["vendor"]]
+    if case["kind"] == "files":
+        lab = ["kind=files", "files:model=" + case["model"]]
+        d = r.get("device", {})
+        lab.append("files:result=" + ("skip" if "skip" in r else d.get("err", "ok")))
+        return lab
     d = r.get("device", {"err": "Unexpected"})
     if "err" in d:
         lab.append("result=" + d["err"])
